@@ -34,6 +34,8 @@ const (
 	findTag0       = "rrsig-keytag-zero"      // Sign refuses a key whose tag is 0
 	// round 9
 	findStarLabel = "rrsig-star-prefixed-label" // Sign takes every owner whose text begins with "*" for a wildcard
+	// round 10
+	findTextCompare = "rrsig-names-compared-as-text" // Verify compares owner / signer / key owner as (folded) text: `w\ww.` is not `www.`
 )
 
 var algs = []uint8{ref.AlgRSASHA1, ref.AlgRSASHA1NSEC3, ref.AlgRSASHA256, ref.AlgRSASHA512, ref.AlgECDSAP256, ref.AlgECDSAP384, ref.AlgEd25519}
@@ -339,6 +341,7 @@ func checkSign(c sigCase) (err error) {
 		classes = append(classes, fmt.Sprintf("octets-that-read-like-an-escape=%v", look), fmt.Sprintf("backslash-octet-then-digits-of-a-letter-code=%v", code))
 	}
 	if c.Spell.any() {
+		classes = append(classes, fmt.Sprintf("spelling-style=%d", c.Spell.Style))
 		up := spelledLetters(owner, c.Spell.Owner, true) || spelledLetters(c.SignerAs, c.Spell.Signer, true)
 		for _, r := range c.Set {
 			if lowerTypes[typ] {
@@ -406,7 +409,7 @@ func checkSign(c sigCase) (err error) {
 	}
 
 	// (1) the library signs
-	sig := &dns.RRSIG{Inception: c.Incep, Expiration: c.Expir, KeyTag: tag, SignerName: spellName(c.SignerAs, c.Spell.Signer), Algorithm: c.Alg, OrigTtl: c.OrigTTL}
+	sig := &dns.RRSIG{Inception: c.Incep, Expiration: c.Expir, KeyTag: tag, SignerName: c.Spell.name(c.SignerAs, c.Spell.Signer), Algorithm: c.Alg, OrigTtl: c.OrigTTL}
 	if serr := sig.Sign(ref.RandCheckedSigner{Inner: signer}, libSet); serr != nil { // the signer insists on a usable entropy source
 		return pbt.Errf("RRSIG.Sign failed: %v (owner %s type %s alg %d key tag %d, %d records)", serr, libSet[0].Header().Name, typeName(typ), c.Alg, tag, len(c.Set))
 	}
@@ -474,7 +477,7 @@ func checkSign(c sigCase) (err error) {
 
 	// a signer that fails: Sign must say so - an RRSIG that Sign reports as made has to verify
 	{
-		fs := &dns.RRSIG{Inception: c.Incep, Expiration: c.Expir, KeyTag: tag, SignerName: spellName(c.SignerAs, c.Spell.Signer), Algorithm: c.Alg, OrigTtl: c.OrigTTL}
+		fs := &dns.RRSIG{Inception: c.Incep, Expiration: c.Expir, KeyTag: tag, SignerName: c.Spell.name(c.SignerAs, c.Spell.Signer), Algorithm: c.Alg, OrigTtl: c.OrigTTL}
 		if ferr := fs.Sign(ref.FailingSigner{Pub: ref.PublicOf(priv)}, libSet); ferr == nil {
 			if verr := fs.Verify(signed.libKey(), libSet); verr != nil {
 				return pbt.Errf("RRSIG.Sign reported success although the crypto.Signer returned an error; the RRSIG it left (signature %q) does not verify: %v", fs.Signature, verr)
@@ -915,6 +918,23 @@ func checkSign(c sigCase) (err error) {
 		return w.KeyOwner.Valid()
 	})
 	add("key class differs", func(w *world) bool { w.KeyClass ^= 2; return true })
+	// round 10: "the key ... whose tag, algorithm, CLASS and name match the RRSIG". The class of the
+	// DNSKEY is neither in the key tag nor in the signed data: with nothing else changed the signature
+	// stays valid, and only the comparison of the two class fields can refuse the key. Every single-bit
+	// change of the key's class and the assigned values (IN, CH, HS, NONE, ANY) and 0.
+	{
+		seen := map[uint16]bool{signed.KeyClass: true, signed.KeyClass ^ 2: true}
+		var others []uint16
+		for b := 0; b < 16; b++ {
+			others = append(others, signed.KeyClass^1<<b)
+		}
+		for _, kc := range append(others, 0, 1, 3, 4, 254, 255) {
+			if kc := kc; !seen[kc] {
+				seen[kc] = true
+				add("key of another class (one bit of the class changed, or IN / CH / HS / NONE / ANY / 0), everything else identical", func(w *world) bool { w.KeyClass = kc; return true })
+			}
+		}
+	}
 	add("key flags changed (SEP bit)", func(w *world) bool { w.KeyFlags ^= 1; return true })
 	// key material of another length (the decoders of the fixed-size algorithms must look at it)
 	add("key octets without the last one (tag made to fit)", func(w *world) bool {
@@ -1331,6 +1351,24 @@ func genSign(t *rapid.T) sigCase {
 			return rapid.Uint64().Draw(t, label)
 		}
 		sp := spelling{Owner: m("dddowner"), SigOwner: m("dddsigowner"), Signer: m("dddsigner"), KeyOwner: m("dddkeyowner"), Rdata: m("dddrdata")}
+		// round 10: the other ways to write the same octets. Half of the spelled cases keep the letters
+		// as \DDD; a quarter write the selected letters with a backslash in front (`w\ww`), a quarter
+		// write every selected octet, letter or not, as \DDD.
+		switch rapid.IntRange(0, 3).Draw(t, "dddstyle") {
+		case 2:
+			sp.Style = styleBackslashLetter
+		case 3:
+			sp.Style = styleAnyDDD
+		}
+		if sp.Style != styleLetterDDD && pbt.Known(findTextCompare) {
+			// the class of the finding: names that Verify compares with each other (owner of the records /
+			// owner of the RRSIG / signer / owner of the key) spelled in these styles. RDATA names are not
+			// compared with anything and stay spelled.
+			if sp.Owner|sp.SigOwner|sp.Signer|sp.KeyOwner != 0 {
+				pbt.Excluded(findTextCompare)
+			}
+			sp.Owner, sp.SigOwner, sp.Signer, sp.KeyOwner = 0, 0, 0, 0
+		}
 		if pbt.Known(findDDD) {
 			// the class of the finding: a letter written as \DDD in a name that the library folds or
 			// compares as text - owner, RRSIG owner, signer, key owner, RDATA names of the 6.2 types.
@@ -1471,6 +1509,21 @@ func init() {
 		c.Set = []wm.Rec{a(name("*foo", "example", "org"), 192, 0, 2, 1)}
 		c.StarLabel = true
 		return checkSign(c)
+	})
+	// round 10, remark 1: one name written in two ways at two sites that Verify compares as text.
+	// (a) the records are owned by `w\ww.example.org.`, the RRSIG (made by the reference) by
+	// `www.example.org.`; (b) Sign is handed the signer name `ex\ample.org.`, the DNSKEY is owned by
+	// `example.org.`; (c) the records are owned by `www.ex\ample.org.`, the signer is `example.org.`
+	pbt.Probe(findTextCompare, func() error {
+		for _, sp := range []spelling{{Style: styleBackslashLetter, Owner: 2}, {Style: styleBackslashLetter, Signer: 4}, {Style: styleBackslashLetter, Owner: 1 << 5, SigOwner: 1 << 5}} {
+			c := base
+			c.Set = []wm.Rec{a(name("www", "example", "org"), 192, 0, 2, 1)}
+			c.Spell = sp
+			if err := checkSign(c); err != nil {
+				return err
+			}
+		}
+		return nil
 	})
 	// round 7, remark 4: a key whose tag is 0 (Ed25519 keys from the seeds 1, 2, ...: the first one for
 	// which a flags value with the ZONE bit gives tag 0)
